@@ -269,6 +269,7 @@ fn alphabet() -> Vec<Line> {
         Line::new(&["print(\"{} {}\", a, type(a))", "a * 2"]),
         Line::new(&["als ja { stel tak = 2; { onbekend } }"]),
         Line::new(&["stel z = onbekend"]),
+        Line::new(&["functie buiten() { functie binnen() { onbekend } }"]),
         Line::new(&["stel z = 4", "z + a"]),
         Line::new(&["functie lees(n) { n + a }", "lees(1)"]),
         Line::new(&["functie noteer(x) { stel laatste = x }", "functie niets() { }"]),
@@ -362,10 +363,12 @@ fn gen_line(t: &mut Tape, declared: &mut Vec<String>, heap_vars: &mut Vec<String
                     "{ stel binnen = 1; onbekend5 }",
                     "als ja { stel tak = 2; { onbekend6 } }",
                     "stel spook = onbekend7",
+                    "functie buiten() { functie binnen() { onbekend8 } }",
+                    "functie buiten2(a) { stel l = a; als ja { functie binnen2(b) { stel m = b; zolang ja { onbekend9 } } } }",
                 ])
                 .to_string();
             // names this line tries to declare: none of them may exist afterwards
-            for g in [format!("n{k}"), "w".to_string(), "binnen".to_string(), "tak".to_string(), "spook".to_string(), "q".to_string()] {
+            for g in [format!("n{k}"), "w".to_string(), "binnen".to_string(), "tak".to_string(), "spook".to_string(), "q".to_string(), "buiten".to_string(), "buiten2".to_string()] {
                 if !ghosts.contains(&g) {
                     ghosts.push(g);
                 }
@@ -909,7 +912,7 @@ pub fn run_check(ctx: &Ctx) -> Report {
     let mut rep = Report::new(
         "C17",
         "fault_enumeration",
-        "sessions on one retained (Compiler, VM) pair: ALL sessions of <=3 lines over a 24-line alphabet (declarations, assignments, expressions over earlier globals, heap values, a function definition with calls, a call of a function of an earlier line, a function that reads a global that a later line declares again, a loop, \
+        "sessions on one retained (Compiler, VM) pair: ALL sessions of <=3 lines over a 25-line alphabet (declarations, assignments, expressions over earlier globals, heap values, a function definition with calls, a call of a function of an earlier line, a function that reads a global that a later line declares again, a loop, \
          and failing lines: parse error, compile errors after a declaration and inside a loop with a pending stop, run-time errors after assignments), plus generated sessions of up to 13 lines (lines of the same kinds, compile errors at every statement position, \
          run-time errors inside functions and loops, and lines cut short by the instruction budget after k instructions). Oracle: every line must produce what the same line produces as the last line of ONE program made of the effective earlier lines (nederlang::eval of the concatenation); \
          a line that fails statically contributes nothing, a line that fails at run time contributes the statements it completed. \
@@ -992,7 +995,7 @@ pub fn run_check(ctx: &Ctx) -> Report {
         }
     }
     failed_line_relation(&mut rep, seed);
-    rep.extra.insert("exhaustive_parts".into(), json!(["all sessions of <=3 lines over the 24-line alphabet (14 424 sessions)", "every cut point k of three multi-statement lines"]));
+    rep.extra.insert("exhaustive_parts".into(), json!(["all sessions of <=3 lines over the 25-line alphabet (16 275 sessions)", "every cut point k of three multi-statement lines"]));
     let ctx2 = ctx.clone();
     let mut rep = par_shards(ctx.shards, rep, move |shard, r| {
         let alpha = alphabet();
